@@ -81,6 +81,12 @@ def cases(tier):
             for method in METHODS:
                 for scale in (16.0, 0.0625):
                     out.append({"kind": "status-ladder", "shape": list(g), "mass": m, "method": method, "scale": scale})
+    # storage type of the mass images: the same (exactly representable) masses stored as float32 or
+    # as integers are the same distributions
+    for g in [(5,), (3, 4), (2, 2, 2)]:
+        for m in ("corner-to-corner", "sparse"):
+            for method in METHODS:
+                out.append({"kind": "image-dtype", "shape": list(g), "mass": m, "method": method})
     fgrids = [(5,), (3, 4), (2, 2, 2)] if tier == "thorough" else [(5,), (3, 4)]
     for g in fgrids:
         for m in ("corner-to-corner", "dense"):
@@ -362,13 +368,16 @@ def run_status_ladder(case, r):
     m1, m2 = scale * m1, scale * m2
     ref = None
     stops = set()
-    for crit in ("tol_distance", "tol_increment", "tol_residual"):
+    plain = {}
+    for crit, verbose in [(c, v) for c in ("tol_distance", "tol_increment", "tol_residual") for v in (False, True)]:
         for k in range(0, 31, 2):
             tols = {crit: 2.0**-k}
             o = opts_for(method, "RAVIART_THOMAS", "CELL_BASED", ("full", "direct"), 0, 25, tols)
             if mname(method) == "bregman":
                 o["L"] = scale  # the penalty scales with the flux
-            tagc = {"shape": shape, "mass": mk, "scale": scale, "method": method, "criterion": crit, "tolerance": f"2^-{k}"}
+            if verbose:
+                o["verbose"] = True  # progress printing must not take part in the computation
+            tagc = {"shape": shape, "mass": mk, "scale": scale, "method": method, "criterion": crit, "tolerance": f"2^-{k}", "verbose": verbose}
             res = Wh.run_solver(mname(method), shape, vs, m1, m2, o)
             if res.exc is not None:
                 r.fail(f"C04/usable/{mname(method)}/full-direct/status-ladder", "the run completes", exception=repr(res.exc)[:300], cfg=tagc)
@@ -378,14 +387,46 @@ def run_status_ladder(case, r):
             conv = check_run(r, res, ref, m1, m2, method, "RAVIART_THOMAS", ("full", "direct"), None, o, tagc)
             n_it = len(res.info["convergence_history"]["distance"])
             stops.add((crit, conv, n_it))
-            r.nontriv((tagc["criterion"], k, scale, mk, method))
+            if not verbose:
+                plain[(crit, k)] = (res.distance, n_it, conv)
+            else:
+                r.check(plain.get((crit, k)) == (res.distance, n_it, conv), f"C04/status/verbose-is-passive/{mname(method)}", "printing progress does not change the computation (distance, iteration count, status)", plain=plain.get((crit, k)), verbose=(res.distance, n_it, conv), cfg=tagc)
+            r.nontriv((tagc["criterion"], k, scale, mk, method, verbose))
     r.outcome((case["shape"], mk, method, scale, sorted(stops)))
     r.count("states", len(stops))
-    r.count("transitions", 3 * 16)
-    r.count("traces", 3 * 16)
+    r.count("transitions", 6 * 16)
+    r.count("traces", 6 * 16)
+
+
+def run_image_dtype(case, r):
+    shape, mk, method = tuple(case["shape"]), case["mass"], case["method"]
+    dim = len(shape)
+    vs = Wh.voxel_sizes(dim, "aniso")
+    m1, m2 = Wh.mass_pairs(shape, mk)  # integer-valued masses
+    ref = None
+    for form in FORMS:
+        o = opts_for(method, "RAVIART_THOMAS", "CELL_BASED", form, 0, 6)
+        base = Wh.run_solver(mname(method), shape, vs, m1, m2, o)
+        if base.exc is not None:
+            continue  # reported by the option lattice
+        if ref is None:
+            ref = Wh.Ref(base.grid)
+        for dt in ("float32", "int64", "int32", "uint16", "uint8"):
+            tagc = {"shape": shape, "mass": mk, "method": method, "form": form, "image_dtype": dt}
+            res = Wh.run_solver(mname(method), shape, vs, m1, m2, o, img_dtype=dt)
+            cell = f"C04/image-dtype/{mname(method)}/{'unsigned' if dt.startswith('u') else ('integer' if dt.startswith('i') else 'float32')}"
+            if res.exc is not None:
+                r.fail(cell, "mass images of any numeric storage type are accepted", exception=repr(res.exc)[:300], cfg=tagc)
+                continue
+            check_run(r, res, ref, m1, m2, method, "RAVIART_THOMAS", form, None, o, dict(tagc))
+            r.check(abs(res.distance - base.distance) <= 1e-12 * max(1.0, abs(base.distance)) and np.allclose(res.flux, base.flux, rtol=1e-10, atol=1e-12), cell, "the same masses stored with another dtype give the same flux and distance", distance=res.distance, distance_float64=base.distance, cfg=tagc)
+            r.nontriv((shape, mk, method, form, dt))
+    r.outcome((case["shape"], mk, method))
 
 
 def run_case(case, r):
+    if case["kind"] == "image-dtype":
+        return run_image_dtype(case, r)
     if case["kind"] == "tiny-default":
         return run_tiny(case, r)
     if case["kind"] == "status-ladder":
